@@ -1,4 +1,4 @@
-import Lemmas.ExtractFails
+import Lemmas.ExtractREq
 /-! # C19 — archive extraction reproduces the archive inside the destination only
 
 All theorems are about the definitions the model driver `drv_c19` executes (`Ex.tarExtract`, `Ex.zipExtract`,
@@ -692,6 +692,155 @@ theorem reextract_link_fails (fs : FS) (root : P) (hr : GoodPath root) (hroot : 
     ((e.kind = .symlink ∨ e.kind = .link) → (tarOne fs root mask e).2 = false) ∧
     (e.kind = .symlink → (zipOne fs root mask e).2 = false) :=
   ⟨fun hk => tarOne_in_the_way fs root hr hroot mask e hk hp, fun hk => zipOne_in_the_way fs root hr hroot mask e hk hp⟩
+
+/-! ## The resolving file system: containment needs the guard
+
+`Model/ExtractR.lean` models the kernel: `walk` follows symbolic links (every non-final component always, the final one
+for `stat`/`open`), the primitives act at the PHYSICAL place resolution arrives at, `os.MkdirAll` and
+`internal.EnsureNoSymlinks` are transcribed call by call, and the loop bodies `tarOneG` / `zipOneG` call them exactly as
+the Go code does.  `tarExtractR` / `zipExtractR` (guard on) are what the model driver executes against the real code.
+The lexical model above is a proof device: `resolving_is_lexical` shows that WITH the guard every call of the loops
+acts at its lexical path, so the two models coincide and every theorem of this file transfers; `guardless_escapes`
+shows that WITHOUT the guard calls the same loops do write and link outside. -/
+
+/-- *with the guard, the resolving extractors are the lexical ones*: on every well-formed tree (every node's parent
+    is a directory — any real file-system tree, whatever links it contains) in which `/` and the proper prefixes of the
+    destination are directories and the destination itself is not a symbolic link (`RInv`; it may be missing, a
+    directory or a file), for every archive.  Proof: `EnsureNoSymlinks` with its `Lstat` calls is the lexical guard
+    (`guardR_eq`); after it succeeded no component of the path is a link (`ensureNoSymlinks_spec`), so resolution is a
+    look-up (`walk_lex`) and `os.MkdirAll`, `OpenFile`, `Symlink`, `Link` act where the lexical primitives act
+    (`mkdirAllR_eq`, `openWriteR_eq`, `symlinkR_eq`, `linkR_eq`); the invariant is kept by every iteration. -/
+theorem resolving_is_lexical (root : P) (hroot : root ≠ []) (hr : GoodPath root) (hdr : NoDots root) (mask : Nat)
+    (es : List Entry) (fs : FS) (hinv : RInv fs root) :
+    tarExtractR fs root mask es = tarExtract fs root mask es ∧ zipExtractR fs root mask es = zipExtract fs root mask es :=
+  ⟨tarExtractR_eq root hroot hr hdr mask es fs hinv, zipExtractR_eq root hroot hr hdr mask es fs hinv⟩
+
+/-- … one iteration -/
+theorem resolving_step_is_lexical (root : P) (hroot : root ≠ []) (hr : GoodPath root) (hdr : NoDots root) (mask : Nat)
+    (e : Entry) (fs : FS) (hinv : RInv fs root) :
+    tarOneR fs root mask e = tarOne fs root mask e ∧ zipOneR fs root mask e = zipOne fs root mask e :=
+  ⟨tarOneR_eq fs root hinv hroot hr hdr mask e, zipOneR_eq fs root hinv hroot hr hdr mask e⟩
+
+/-- **containment on the resolving file system** (tar and zip; `..`, absolute names, links created by earlier
+    entries, links that were there before): whatever the archive says, every path that is not at or below the
+    destination names the same node after the extraction as before.  This is the statement that depends on the guard:
+    it is false of the same loops without the guard calls (`guardless_escapes`). -/
+theorem extract_contained_resolving (root : P) (hroot : root ≠ []) (hr : GoodPath root) (hdr : NoDots root)
+    (mask : Nat) (es : List Entry) (fs : FS) (hinv : RInv fs root) (q : P) (hq : ¬ root <+: q) :
+    (tarExtractR fs root mask es).1.get q = fs.get q ∧ (zipExtractR fs root mask es).1.get q = fs.get q := by
+  rw [tarExtractR_eq root hroot hr hdr mask es fs hinv, zipExtractR_eq root hroot hr hdr mask es fs hinv]
+  exact extract_contained root hr mask es fs hinv.anc q hq
+
+/-- **containment of contents and of hard links on the resolving file system**: a file (inode) that no path at or
+    below the destination holds before the extraction has the same content and mode afterwards, and no such file
+    becomes linked into the destination -/
+theorem extract_contained_inodes_resolving (root : P) (hroot : root ≠ []) (hr : GoodPath root) (hdr : NoDots root)
+    (mask : Nat) (es : List Entry) (fs : FS) (hinv : RInv fs root) (ino : Nat) :
+    (ino < fs.inodes.size → ¬ RefsBelow root fs ino →
+      (tarExtractR fs root mask es).1.inodes[ino]? = fs.inodes[ino]? ∧
+      (zipExtractR fs root mask es).1.inodes[ino]? = fs.inodes[ino]?) ∧
+    (RefsBelow root (tarExtractR fs root mask es).1 ino → RefsBelow root fs ino ∨ fs.inodes.size ≤ ino) ∧
+    (RefsBelow root (zipExtractR fs root mask es).1 ino → RefsBelow root fs ino ∨ fs.inodes.size ≤ ino) := by
+  rw [tarExtractR_eq root hroot hr hdr mask es fs hinv, zipExtractR_eq root hroot hr hdr mask es fs hinv]
+  exact ⟨fun hlt hout => extract_contained_inodes root hr mask es fs ino hlt hout,
+    (extract_no_outside_link root hr mask es fs ino).1, (extract_no_outside_link root hr mask es fs ino).2⟩
+
+/-- the tree stays a real tree and the invariant of `resolving_is_lexical` holds again afterwards (so a second
+    extraction, `r:2`, is covered as well) -/
+theorem extract_invariant_resolving (root : P) (hroot : root ≠ []) (hr : GoodPath root) (hdr : NoDots root)
+    (mask : Nat) (es : List Entry) (fs : FS) (hinv : RInv fs root) :
+    RInv (tarExtractR fs root mask es).1 root ∧ RInv (zipExtractR fs root mask es).1 root := by
+  rw [tarExtractR_eq root hroot hr hdr mask es fs hinv, zipExtractR_eq root hroot hr hdr mask es fs hinv]
+  constructor
+  · refine ⟨(extract_wf root hr mask es fs hinv.wf).1, ?_, ?_⟩
+    · intro j hj
+      obtain ⟨m, hm⟩ := hinv.anc j hj
+      exact ⟨m, (extract_monotone root hr mask es fs _ _ hm).1⟩
+    · have : ∀ (es : List Entry) (fs : FS), RInv fs root → ∀ t, (tarExtract fs root mask es).1.get root ≠ some (.symlink t) := by
+        intro es
+        induction es with
+        | nil => intro fs h; exact h.rootNoLink
+        | cons x xs ih =>
+          intro fs h
+          rw [tarExtract_cons]
+          split
+          · exact ih _ (h.tarStep hr hroot mask x)
+          · exact (h.tarStep hr hroot mask x).rootNoLink
+      exact this es fs hinv
+  · refine ⟨(extract_wf root hr mask es fs hinv.wf).2, ?_, ?_⟩
+    · intro j hj
+      obtain ⟨m, hm⟩ := hinv.anc j hj
+      exact ⟨m, (extract_monotone root hr mask es fs _ _ hm).2⟩
+    · have : ∀ (es : List Entry) (fs : FS), RInv fs root → ∀ t, (zipExtract fs root mask es).1.get root ≠ some (.symlink t) := by
+        intro es
+        induction es with
+        | nil => intro fs h; exact h.rootNoLink
+        | cons x xs ih =>
+          intro fs h
+          rw [zipExtract_cons]
+          split
+          · exact ih _ (h.zipStep hr hroot mask x)
+          · exact (h.zipStep hr hroot mask x).rootNoLink
+      exact this es fs hinv
+
+/-- `/`, the destination `/d`, and beside it `/e/` with the file `/e/v` (inode 0) -/
+def worldFs : FS :=
+  { nodes := [([], .dir 0o755), ([[100]], .dir 0o755), ([[101]], .dir 0o755), ([[101], [118]], .file 0)],
+    inodes := #[{ data := [7], mode := 0o644 }] }
+
+/-- `l -> /e`, then the file `l/x` -/
+def attackCreate : List Entry :=
+  [{ kind := .symlink, name := [108], link := [47, 101] }, { kind := .reg, name := [108, 47, 120], data := [1] }]
+/-- `l -> ../e`, the hard link `h => l/v`, then the file `h` -/
+def attackLink : List Entry :=
+  [{ kind := .symlink, name := [108], link := [46, 46, 47, 101] }, { kind := .link, name := [104], link := [108, 47, 118] },
+   { kind := .reg, name := [104], data := [6, 6] }]
+
+/-- **the guard is necessary**: the same loop bodies over the same resolving primitives with the guard calls left
+    out (`tarOneG false`, `zipOneG false`: the extractors before commit ddf9a1e) create `/e/x` outside the destination
+    through the link the archive made, and — through a hard link made through that link — replace the content of the
+    outside file `/e/v`; with the guard calls the same archives are refused and nothing outside changes -/
+theorem guardless_escapes :
+    -- without the guard: something outside is created …
+    (extractWith (fun fs e => tarOneG false fs demoRoot 0o777 e) worldFs attackCreate).2 = true ∧
+    (extractWith (fun fs e => tarOneG false fs demoRoot 0o777 e) worldFs attackCreate).1.get [[101], [120]] ≠ none ∧
+    (extractWith (fun fs e => zipOneG false fs demoRoot 0o777 e) worldFs attackCreate).1.get [[101], [120]] ≠ none ∧
+    -- … an outside file is linked into the destination and then modified
+    (extractWith (fun fs e => tarOneG false fs demoRoot 0o777 e) worldFs attackLink).1.get [[100], [104]] =
+      some (.file 0) ∧
+    (extractWith (fun fs e => tarOneG false fs demoRoot 0o777 e) worldFs attackLink).1.inodes[0]? =
+      some { data := [6, 6], mode := 0o644 } ∧
+    -- with the guard: an error, and the outside is untouched
+    (tarExtractR worldFs demoRoot 0o777 attackCreate).2 = false ∧
+    (tarExtractR worldFs demoRoot 0o777 attackCreate).1.get [[101], [120]] = none ∧
+    (zipExtractR worldFs demoRoot 0o777 attackCreate).2 = false ∧
+    (zipExtractR worldFs demoRoot 0o777 attackCreate).1.get [[101], [120]] = none ∧
+    (tarExtractR worldFs demoRoot 0o777 attackLink).2 = false ∧
+    (tarExtractR worldFs demoRoot 0o777 attackLink).1.inodes[0]? = some { data := [7], mode := 0o644 } := by
+  decide
+
+/-- the hypotheses of the resolving theorems hold of that world -/
+example : RInv worldFs demoRoot := by
+  refine ⟨?_, ?_, ?_⟩
+  · intro p hp hl
+    unfold FS.get worldFs at hp
+    simp only [List.find?_cons, List.find?_nil] at hp
+    split at hp
+    · rename_i h; simp at h; (first | rw [h] at hl | rw [← h] at hl); simp at hl
+    · split at hp
+      · rename_i h; simp at h; (first | rw [h] at hl | rw [← h] at hl); simp at hl
+      · split at hp
+        · rename_i h; simp at h; (first | rw [h] at hl | rw [← h] at hl); simp at hl
+        · split at hp
+          · rename_i h; simp at h; (first | rw [h] | rw [← h]); exact ⟨0o755, by decide⟩
+          · simp at hp
+  · intro j hj
+    have : j = 0 := by simp [demoRoot] at hj; omega
+    subst this; exact ⟨0o755, by decide⟩
+  · intro t h
+    have : worldFs.get demoRoot = some (.dir 0o755) := by decide
+    rw [this] at h; cases h
+example : demoRoot ≠ [] := by decide
 
 /-! ### the new theorems are not vacuous -/
 
